@@ -208,6 +208,8 @@ def run(ctx):
         for k, h in enumerate(hists):
             if ctx.quick and not any(s["act"] == "update" and s["ok"] for s in h) and k % 3:
                 continue
+            if ctx.quick and len(hists) > 700 and k % 2:          # the quick tier replays every second of them (the thorough tier all)
+                continue
             jobs.append((pi, h, len(jobs)))
             n_short += 1
     if n_short < 300:
